@@ -51,7 +51,7 @@ def run_chunk(args):
     camp = campaigns.get(prop, camp_name)
     out = {'runs': 0, 'cases': 0, 'stats': {}, 'violations': [],
            'invalid': 0, 'errors': [], 'nontrivial': [], 'digests': {},
-           'verdicts': {}, 'samples': []}
+           'verdicts': {}, 'samples': [], 'sched': set()}
     for seed in seeds:
         if time.time() > deadline:
             break
@@ -66,6 +66,7 @@ def run_chunk(args):
         merge_stats(out['stats'], r['stats'])
         out['invalid'] += r['invalid']
         out['digests'][seed] = r['log_digest']
+        out['sched'].update(r.get('sched_digests', []))
         for v in r['verdicts']:
             out['verdicts'][v] = out['verdicts'].get(v, 0) + 1
         if r['errors']:
@@ -193,6 +194,7 @@ def run_check(args):
     agg = {'runs': 0, 'cases': 0, 'invalid': 0, 'stats': {}, 'verdicts': {},
            'per_campaign': {}}
     nontrivial = set()
+    sched_seen = set()
     violations = []
     errors = []
     samples = []
@@ -242,6 +244,7 @@ def run_check(args):
                     nontrivial.update(
                         camp['name'] + ':' + s for s in r['nontrivial'])
                     c_nontriv.update(r['nontrivial'])
+                    sched_seen.update(r['sched'])
                     errors.extend(r['errors'])
                     violations.extend(
                         (camp, s, sc, res) for s, sc, res in r['violations'])
@@ -347,6 +350,7 @@ def run_check(args):
                                            known_hits.get(k['id'], 0)))
     wall = time.time() - t0
     if not args.no_evidence:
+        agg['distinct_schedules'] = len(sched_seen)
         write_evidence(prop, tier, args.seed, camps, agg, nontrivial,
                        samples, wall, reported, known_hits, incidental, jobs)
     print('done property=%s cases=%d runs=%d invalid=%d nontrivial=%d '
@@ -369,9 +373,18 @@ def write_evidence(prop, tier, seed, camps, agg, nontrivial, samples, wall,
         'coverage': {
             'evaluations': agg['runs'],
             'distinct_nontrivial': len(nontrivial),
-            'rule': campaigns.RULES.get(prop, '') + ' | campaigns: ' +
-            '; '.join('%s: %s' % (c['name'], c.get('rule', ''))
-                      for c in camps),
+            'rule': 'one case = one seeded scenario (generated program + '
+            'history + faults/schedule), run against the real package and '
+            'the reference model; distinct = distinct digest of the '
+            'scenario (program, history, config). Campaigns: ' +
+            '; '.join('%s: %s [%s]' % (
+                c['name'], c.get('rule', ''),
+                campaigns.NT_RULES.get(c['nontrivial'].__name__, ''))
+                for c in camps),
+            'distinct_interleavings': agg.get('distinct_schedules', 0),
+            'interleaving_measure': 'distinct digests of the sequence of '
+            'scheduler decisions (thread chosen at each decision point) per '
+            'build',
             'samples': samples[:4],
             'cases': agg['cases'],
             'invalid_discarded': agg['invalid'],
